@@ -226,7 +226,18 @@ func checkC15(w *World) {
 			w.undecided(P, "R15.5", "function-call handler", h.Fn.Pos(), "no dynamic call of a function value found")
 		}
 	}
-	w.floor(P, "R15.5", 1)
+	if hv := f.Handlers["VariableReference"]; hv != nil {
+		for _, st := range resultStores(hv.Fn, r) {
+			g := false
+			for _, a := range guardAtoms(st.Block()) {
+				if bo, ok := a.V.(*ssa.BinOp); ok && isNilConst(bo.Y) && bo.X == st.Val && ((bo.Op == token.EQL && !a.Pol) || (bo.Op == token.NEQ && a.Pol)) {
+					g = true
+				}
+			}
+			w.check(P, "R15.5", "variable value stored as the expression result", st.Pos(), g, fmt.Sprintf("stored only under a non-nil test of the value itself: %v (a variable bound to a nil Result would make Exec return (nil, nil))", g))
+		}
+	}
+	w.floor(P, "R15.5", 2)
 
 	// R15.6
 	if jp := w.method("parser", "jsonParser", "Pull"); jp != nil {
